@@ -348,9 +348,11 @@ func NonceRefForEntry(entry iface.IPFSLogEntry) []byte {
 		next += "-" + c.String()
 	}
 
-	return []byte(fmt.Sprintf("%s,%s,%s,%s,%d,%s,%d",
+	// The key is only set once the entry has been signed, so it can't take
+	// part in the nonce reference: its slot is left empty, as it is at
+	// signing time, otherwise PreSign yields other bytes on verification.
+	return []byte(fmt.Sprintf("%s,,%s,%s,%d,%s,%d",
 		next,
-		entry.GetKey(),
 		entry.GetPayload(),
 		entry.GetClock().GetID(),
 		entry.GetClock().GetTime(),
